@@ -1,10 +1,68 @@
-"""C08 -- capacity-limit errors are clean.  Part (a): E1 on throwing FixedCapacityVector (every growing operation from
-every state, including those that exceed N) and at(); part (b): 8-bit size_type grid (checks/c08 grid, added below)."""
+"""C08 -- capacity-limit errors are clean.
+(a) E1 on throwing FixedCapacityVector: every growing operation from every reachable state, including every call that
+    exceeds N (expected: out_of_range, state unchanged), and at(i) for i in [0, size+2) on every flavour;
+(b) grid_c08.cpp: complete grid near the maximum of 8-bit size types (uint8_t: 255, int8_t: 127) for dynamic vectors:
+    start sizes max-4..max x every growing operation x EVERY position x counts 0..8 (expected: overflow_error, contents /
+    size / capacity / live objects / allocator blocks unchanged, still usable)."""
+import json
+
+import vlib
 from checks import e1
 
 
+def grid_matrix(q):
+    I = e1.inst
+    m = [
+        I("vector", 0, "TC4", st="uint8_t", alloc="ledgerrealloc"),
+        I("vector", 0, "NTR", st="int8_t", alloc="ledgerstd"),
+        I("small", 3, "TR", st="uint8_t", alloc="ledgerrealloc"),
+        I("small", 2, "NTR", st="int8_t", alloc="ledgerstd"),
+    ]
+    if not q:
+        m += [I("vector", 0, "TR", st="int8_t", alloc="ledgerrealloc"), I("vector", 0, "NTR", st="uint8_t", alloc="ledgerstd"),
+              I("small", 5, "TC4", st="int8_t", alloc="ledgerbasic"), I("small", 1, "PTN", st="uint8_t", alloc="ledgerstd"),
+              I("small", 3, "NTR", st="uint8_t", alloc="ledgerstd"), I("vector", 0, "TC12", st="uint8_t", alloc="ledgerbasic")]
+    return m
+
+
+def run_grid(ctx, i):
+    binp = vlib.build("grid_c08.cpp", e1.flags(i), "g08-" + e1.name(i))
+    rc, out, err = vlib.run([binp], timeout=900)
+    try:
+        res = json.loads(out)
+    except ValueError:
+        res = None
+    return i, binp, rc, res, err
+
+
 def run(ctx):
-    matrix = e1.quick_matrix() if ctx.tier == "quick" else e1.thorough_matrix()
+    q = ctx.tier == "quick"
+    matrix = e1.quick_matrix() if q else e1.thorough_matrix()
     matrix = [i for i in matrix if i["flavour"] == "fixed"] + [i for i in matrix if i["flavour"] != "fixed"][:3]
     cov = e1.explore(ctx, matrix, ["C08"])
-    return ctx.finish("model_checking", cov, e1.ASSUME)
+    gm = grid_matrix(q)
+    vlib.pmap(lambda i: vlib.build("grid_c08.cpp", e1.flags(i), "g08-" + e1.name(i)), gm)
+    tot = dict(evaluations=0, exceeding=0, fitting=0)
+    gsamples = []
+    for i, binp, rc, res, err in vlib.pmap(lambda i: run_grid(ctx, i), gm):
+        if res is None:
+            ctx.violation("G08|%s|%s|crash" % (i["flavour"], e1._vcat(i)), {"engine": "grid_c08", "instantiation": i, "stderr": err[-2000:], "cmd": binp},
+                          "grid_c08 died: " + err.strip().split("\n")[-1][:200])
+            continue
+        for k in tot:
+            tot[k] += res[k]
+        gsamples += [e1.name(i) + ": " + s for s in res["samples"][:2]]
+        for f in res["failures"]:
+            parts = f.split("|")
+            sig = "G08|%s|%s|%s|%s" % (i["flavour"], e1._vcat(i), parts[0], e1.norm(parts[-1]))
+            case = "|".join(parts[:4])
+            cmd = "%s --case '%s'" % (binp, case)
+            rc2, out2, _ = vlib.run([binp, "--case", case], timeout=120)
+            if rc2 == 0:
+                raise RuntimeError("grid failure did not reproduce: " + f)
+            ctx.violation(sig, {"engine": "grid_c08", "instantiation": i, "case": case, "observed": parts[-1], "cmd": cmd}, f)
+    cov["grid_evaluations"] = tot["evaluations"]
+    cov["grid_points_exceeding_the_limit"] = tot["exceeding"]
+    cov["grid_points_fitting"] = tot["fitting"]
+    cov["samples"] = cov["samples"][:8] + [{"grid point (op|start size|position|count)": s} for s in gsamples[:6]]
+    return ctx.finish("model_checking", cov, e1.ASSUME + ["64-bit size arithmetic cannot be reached by execution; the unchecked growing policy beyond N is undefined by contract and not driven"])
